@@ -19,6 +19,7 @@ SPEC = docsweep.Spec(
     opts=[(False, True), (True, True)],
     knobs={"links": 0.4},
     project=project,
+    part_level=True,
     oracle=oracles2.o_resplit,
     nontrivial=lambda fs: "resplit" in fs or "corpus" in fs,
     n_quick=100, n_thorough=4000,
